@@ -487,6 +487,8 @@ func (b *brokerCore) handle(ws []string) string {
 		return "reset"
 	case "rawfirst":
 		return b.rawFirst(atoi(ws[1]), unhex(ws[2]), ws[3] == "1")
+	case "race":
+		return b.race(ws)
 	case "raw":
 		c, ok := b.clients[atoi(ws[1])]
 		if !ok || c.dead || !c.accepted {
@@ -762,6 +764,22 @@ func scanFrames(buf []byte, ring int) (k, pings, tail int) {
 // first everything up to the end of the last packet that is complete now, then a barrier
 // round (the connection is at a packet boundary), then the bytes of the incomplete packet.
 func (b *brokerCore) rawWrite(c *rawClient, data []byte, groups map[int][]string) {
+	b.rawWriteWhile(c, data, groups, nil)
+}
+
+// rawWriteWhile: like rawWrite; `during` (if any) runs concurrently with the first write on c.
+func (b *brokerCore) rawWriteWhile(c *rawClient, data []byte, groups map[int][]string, during func()) {
+	together := func(w func()) {
+		if during == nil {
+			w()
+			return
+		}
+		done := make(chan struct{})
+		go func() { w(); close(done) }()
+		during()
+		during = nil
+		<-done
+	}
 	stream := append(append([]byte{}, c.pend...), data...)
 	written := len(c.pend)
 	k, pings, tail := scanFrames(stream, b.ring)
@@ -770,7 +788,7 @@ func (b *brokerCore) rawWrite(c *rawClient, data []byte, groups map[int][]string
 		c.pings += pings
 		c.eventPings += pings
 		c.mu.Unlock()
-		c.write(stream[written:k])
+		together(func() { c.write(stream[written:k]) })
 		written = k
 		c.pend = nil
 		b.collectInto(groups, c.id)
@@ -779,7 +797,9 @@ func (b *brokerCore) rawWrite(c *rawClient, data []byte, groups map[int][]string
 		}
 	}
 	if len(stream) > written {
-		c.write(stream[written:])
+		together(func() { c.write(stream[written:]) })
+	} else if during != nil {
+		together(func() {})
 	}
 	c.pend = append([]byte{}, stream[k:]...)
 	if tail == tailFatal {
@@ -872,4 +892,41 @@ func firstFrameLen(data []byte) int {
 		}
 	}
 	return 1 + m + rem
+}
+
+// race: `race <a> <hex|close> <p> <hex>` — connection a sends its bytes (or closes its socket) while
+// connection p sends whole packets, with nothing in between: deliveries to a race with a's teardown.
+// Observed afterwards like any other event; what a itself received is not compared once it is closed.
+func (b *brokerCore) race(ws []string) string {
+	a, okA := b.clients[atoi(ws[1])]
+	p, okP := b.clients[atoi(ws[3])]
+	if !okA || !okP || a == p || a.dead || p.dead || !a.accepted || !p.accepted || p.mid() {
+		return "-"
+	}
+	b.rawConn = a.id
+	dataP := unhex(ws[4])
+	kP, pingsP, _ := scanFrames(dataP, b.ring)
+	p.mu.Lock()
+	p.pings += pingsP
+	p.eventPings += pingsP
+	p.mu.Unlock()
+	sendP := func() {
+		if len(dataP) > 0 {
+			p.write(dataP)
+		}
+		p.pend = append([]byte{}, dataP[kP:]...)
+	}
+	groups := map[int][]string{}
+	if ws[2] == "close" {
+		done := make(chan struct{})
+		go func() { a.conn.Close(); close(done) }()
+		sendP()
+		<-done
+		a.pend = nil
+		a.waitUntil(func() bool { return a.eof }, brokerWait)
+		b.collectInto(groups, a.id)
+	} else {
+		b.rawWriteWhile(a, unhex(ws[2]), groups, sendP)
+	}
+	return b.render(groups, false)
 }
